@@ -362,7 +362,7 @@ func init() {
 		Technique: "deterministic simulation of the opgen process: child built from the working tree with the verif tag, with simulator-owned argv, word-list file state, stdio pipes and a file-backed random tape (hook H7); stdout compared exactly with the equivalent library recipe evaluated in-process on the same tape; usage / refusal / file-fault exit statuses checked",
 		Rule:      "case = one opgen invocation; distinct by hash of (argv shape, file state); non-trivial = at least one flag besides the subcommand, or a file, or an error path",
 		Assumptions: []string{"the tagged binary differs from the shipped one only by hook H7's init (tape instead of the OS source, sorted index orders)", "don't-care: unknown words inside --allow/--require/--exclude, unknown --separator/--capitalize values, explicit empty class lists, -h/--help, --entropy of a recipe the library refuses", "this is mostly configuration exploration; simulation contributes the deterministic child process (exact oracle) and the file faults"},
-		Episodes:    map[string]int{"quick": 4000, "thorough": 40000},
+		Episodes:    map[string]int{"quick": 4000, "thorough": 800000},
 		TwiceEvery:  9,
 		Real:        []string{"cmd/opgen (real process)", "package spg inside the child", "flag package (std)"},
 		Simulated:   []string{"argv", "word-list file: valid, duplicated, empty, whitespace only, missing, a directory", "stdout/stderr pipes", "the child's random source (tape file via VERIF_TAPE)"},
